@@ -347,6 +347,29 @@ impl<R: AsyncRead + Unpin> AsyncRead for Take<R> {
         }
     }
 }
+/// tokio implements AsyncBufRead for `Take<R: AsyncBufRead>`: the inner buffer cut at the limit.
+impl<R: AsyncBufRead + Unpin> AsyncBufRead for Take<R> {
+    fn poll_fill_buf(self: Pin<&mut Self>, cx: &mut Context<'_>) -> Poll<io::Result<&[u8]>> {
+        let me = self.get_mut();
+        if me.limit == 0 {
+            return Poll::Ready(Ok(&[]));
+        }
+        match Pin::new(&mut me.inner).poll_fill_buf(cx) {
+            Poll::Pending => Poll::Pending,
+            Poll::Ready(Err(e)) => Poll::Ready(Err(e)),
+            Poll::Ready(Ok(b)) => {
+                let cap = if (b.len() as u64) < me.limit { b.len() } else { me.limit as usize };
+                Poll::Ready(Ok(&b[..cap]))
+            }
+        }
+    }
+    fn consume(self: Pin<&mut Self>, amt: usize) {
+        let me = self.get_mut();
+        let amt = if (amt as u64) < me.limit { amt } else { me.limit as usize };
+        me.limit -= amt as u64;
+        Pin::new(&mut me.inner).consume(amt);
+    }
+}
 /// Future of `read_to_end`: reads until end of file, appending to the vector; yields the
 /// number of bytes read.  End of file is NOT an error.
 pub struct ReadToEnd<'a, R: ?Sized> {
